@@ -139,6 +139,11 @@ def run(ctx):
         sc = Scope(f.node)
         par = sc.parents
         copies = [nm for nm in sc.assigns if rules.is_copy_of(sc, nm, [G])]
+        rets_all = [n for n in astx.walk_fn(f.node) if isinstance(n, ast.Return)]
+        if len(rets_all) != 1 or not any(rets_all[0] is s_ for s_ in f.body):
+            extra = [r_ for r_ in rets_all if not any(r_ is s_ for s_ in f.body)]
+            o.undecided(f"number_of_connected_graphs has a return path that bypasses the enumeration (`{txt(extra[0]) if extra else 'return'}`): a closed-form shortcut is not "
+                        "something this rule can validate", f, extra[0] if extra else f.node)
         effs = rules.effects_on(prog, f, [G], scope=sc)
         if effs:
             o.violated(f, effs[0].node, f"the substrate graph `{G}` is mutated ({effs[0].kind})")
